@@ -32,14 +32,14 @@ NOTE = "The trace seam wraps the agent's function; equality is checked on the un
 TECHNIQUE = "deterministic simulation: lifecycle histories + shutdown fault injection, hook/timer/effect observation"
 
 SRC = '''
-def hit(i):
+def hit(i, pause):
     x = i
+    pause()
     return x
 
 def looper(n, pause, out):
     for i in range(n):
-        out.append(hit(i))
-        pause()
+        out.append(hit(i, pause))
 '''
 
 
@@ -160,7 +160,8 @@ def execute(s, ch):
             args.update(snapshot="no_collect")
             metrics = [MetricDefinition("m_life", "COUNTER")]
         elif s["kind"] == "span":
-            args.update(span="line", snapshot="no_collect")
+            # a method span: open from the entry of hit() to its return, i.e. across the pause inside it
+            args.update(span="method", method_name="hit", snapshot="no_collect")
         w.handler.new_config([build_trigger("tpL", p.basename, 2, args, [], metrics)])
         g = p.load()
         # background application threads that keep running through the tracepoint while and after we shut down
@@ -231,7 +232,8 @@ def execute(s, ch):
         g["looper"](3, lambda: None, [])
         k.sleep(35)
         k.settle()
-        acts = [c for c in w.sink.calls[mark_s:] if c[2] in ("log_tracepoint", "counter", "gauge", "create_span", "decorate")]
+        acts = [c for c in w.sink.calls[mark_s:] if c[2] in ("log_tracepoint", "counter", "gauge", "create_span", "decorate",
+                                                             "span_close")]
         if len(w.pushed) > mark_p or acts:
             threads = sorted({th for (_, th, _) in w.pushed[mark_p:]} | {c[3] for c in acts})
             who = "main" if "main" in threads else "other-thread"
